@@ -105,13 +105,15 @@ class Projector:
 
     def __init__(self, run: dict, before: dict[str, bytes], after: dict[str, bytes], *, trace_id: str,
                  expect: dict | None = None, site_lines: dict[str, list[int]] | None = None,
-                 outside_unchanged: bool = True, schema_check=None, output_given: bool | None = None):
+                 outside_unchanged: bool = True, schema_check=None, output_given: bool | None = None,
+                 site_findings: dict | None = None):
         self.run = run
         self.before = before
         self.after = after
         self.trace_id = trace_id
         self.expect_in = expect or {}
         self.site_lines = site_lines or {}
+        self.site_findings = site_findings or {}
         self.outside_unchanged = outside_unchanged
         self.schema_check = schema_check
         self.vers: dict[str, int] = {}
@@ -277,6 +279,14 @@ class Projector:
             outcome = "changed"
         else:
             outcome = "unchanged"
+        findings_ok = unfixed_ok = True
+        sf = self.site_findings.get(rel)
+        if sf is not None:
+            reported = sorted(tuple(x) for v in sf.values() for x in v)
+            for u in e.get("unfixed") or []:
+                if (u["id"], u["rule"]) not in reported:
+                    unfixed_ok = False
+                    self.notes.append(f"unfixed finding {u['id']}/{u['rule']} was never reported for {rel}")
         new = post  # no changeset: the version "reported" is whatever is on disk (checked to be the untouched one)
         nchanges = 0
         lines_ok = desc_ok = path_ok = True
@@ -313,12 +323,28 @@ class Projector:
                 c_orig = sorted({ln for ln in entry_lines if ln in site_lines})
                 c_new = sorted({s_ for s_ in site_lines for ln in entry_lines if mapping.get(s_) == ln})
                 clines = c_orig if c_orig == sites else (c_new if c_new == sites else (c_orig or c_new))
+                if sf is not None:
+                    use_new = clines == c_new and clines != c_orig
+                    for c in css:
+                        for ch in c["changes"]:
+                            ln = ch["line"]
+                            site = next((s_ for s_ in site_lines if (mapping.get(s_) == ln if use_new else s_ == ln)), None)
+                            if site is None:
+                                if ch["findings"]:
+                                    pass  # entry outside the sites (e.g. an import line): may carry the findings of the edit
+                                continue
+                            want = sorted(tuple(x) for x in sf.get(str(site), sf.get(site, [])))
+                            got = sorted(tuple(x) for x in ch["findings"])
+                            if got != want:
+                                findings_ok = False
+                                self.notes.append(f"change entry for line {ln} of {rel} carries {got}, reported for that site: {want}")
             _ = cs
         return {
             "ev": "FileEnd", "f": self.tok(rel), "o": outcome, "new": new, "post": post,
             "nchanges": nchanges, "nchangesets": len(css), "linesOk": lines_ok, "descOk": desc_ok, "pathOk": path_ok,
             "sites": sites, "clines": clines,
             "unfixedAll": (e.get("nresults") is None) or len(e.get("unfixed") or []) >= (e.get("nresults") or 0),
+            "findingsOk": findings_ok, "unfixedOk": unfixed_ok,
         }
 
     def _deps(self, e: dict) -> dict:
